@@ -10,7 +10,8 @@ EVAL = os.environ.get("SEED_EVAL", "/tmp/wt/eval")
 # checks of other properties (or the thorough tier) that are also run for a seeded change, where its own property's quick check is not the one that sees it
 EXTRA = {"C06-m4": ["C12"], "C02-m4": ["C12"], "C03-m3": ["C13"], "C03-m4": ["C12"], "C04-m4": ["C12"], "C10-m4": ["C12"], "C16-m3": ["C13"],
          "C16-m4": ["C11"], "C20-m4": ["C08"], "C18-m3": ["C12"], "C12-m3": ["C18"], "C15-m4": ["C15@thorough"], "C16-m2": ["C08"], "C12-m2": ["C06"], "C20-m3": ["C19"],
-         "C16-m5": ["C13"], "C16-m6": ["C11"], "C03-m6": ["C13"], "C17-m5": ["C13"], "C15-m5": ["C06"], "C15-m6": ["C01"], "C13-m6": ["C17"], "C17-m6": ["C13"]}
+         "C16-m5": ["C13"], "C16-m6": ["C11"], "C03-m6": ["C13"], "C17-m5": ["C13"], "C15-m5": ["C06"], "C15-m6": ["C01"], "C13-m6": ["C17"], "C17-m6": ["C13"],
+         "C01-m8": ["C15"], "C20-m7": ["C09"], "C15-m7": ["C06"], "C15-m8": ["C01"], "C06-m7": ["C15"], "C08-m7": ["C15"], "C08-m8": ["C15"], "C02-m7": ["C07"]}
 
 
 def sh(cmd, **kw):
@@ -67,7 +68,7 @@ def main():
                 meta = json.load(open(os.path.join(out, "meta.json")))
             except Exception:
                 meta = {}
-            meta.update(dict(id=mid, breaks_property=prop, origin="written by a fresh sub-agent that saw only the property text and its own worktree",
+            meta.update(dict(id=mid, breaks_property=prop, origin="written by a fresh sub-agent that saw only the property text, its own worktree and (rounds m3-m8) a description of what the harness already does",
                              confirmed=conf, confirmed_how="tools/mutant_confirm.sh in the sub-agent's scratch worktree: git apply, touch *.asm, make -j8 check (37 PASS), run_demo.sh with and without the patch",
                              evaluated_with="VERIF_REPO=<scratch worktree with the patch> ./check <Cxx> --tier <tier> for each entry of runs",
                              rebased_onto_head=os.path.exists(os.path.join(out, "patch.orig.diff")), evaluated_on_repo_head=head,
